@@ -50,7 +50,9 @@ class Store:
         self.writes: list[tuple[int, bytes]] = []  # device writes in order
         self.commits: list[tuple[int, dict]] = []  # (number of writes done, tree after it)
         self.tree: dict = {}
-        self.hdr_seq = [cfg.get("seq0", 3), cfg.get("seq0", 3) - 1]
+        gap = cfg.get("stale_gap", 1)
+        gap = gap if 0 < gap <= cfg.get("seq0", 3) else 1
+        self.hdr_seq = [cfg.get("seq0", 3), cfg.get("seq0", 3) - gap]  # the inactive copy may be arbitrarily far behind
         self.obj = [[0, 0, 0, 0] for _ in range(OBJ_ENTRIES)]  # type, offset, size, allocated
         self.freed: list[tuple[int, int]] = []
         self.reused = 0
